@@ -46,6 +46,13 @@ CLAIMS = {
          "re-writing what was read from writer output reproduces it character for character; any follower (fold over events) gets the same result directly or through the text. "
          "Tie: writer text, builder result and protocol verdict of the real code compared with the model on exhaustive small and random histories, and on strings.",
          "Lean 4 proof (writer/reader inverse theorem by a compositional link invariant over the writer's segment stack) + differential correspondence on event histories", "4.9"),
+ 'C10': ("Theorems in Purr/Props/C10.lean, for EVERY protocol-conformant history (hence every accepted string): the builder never panics (invariant: path length = stack length, stack ids in range, every open ring number "
+         "points at a node that still carries its placeholder); build_ok_wellformed — whenever build succeeds the graph is WellFormed (independent predicate of C11): invariant 'the resolved bonds form a well-formed simple graph', "
+         "preserved by root / extend / opening join / closing join (proved on a pointwise view of the node list; the closing case uses the self/duplicate check of fix D9, the 64-row reconcile table and the placeholder invariant); "
+         "hence validate accepts it and walk never rejects it (with C11); reconcile equals its specification on all 64 pairs and always yields mutually reversed kinds; a Join(a,b) error is only recorded by a closing digit, "
+         "with a = current head and b = the atom that opened the number. PARTIAL: the exact characterisation 'build fails iff unmatched digit / irreconcilable / self / duplicate closure, and Rnum(i) names an unmatched digit' is not yet a "
+         "theorem; it is decided on every run by an oracle that recomputes unmatched digits and problematic closures from the history without the builder.",
+         "Lean 4 proof (builder invariant: resolved bonds form a well-formed simple graph, by induction over conformant histories) + differential correspondence of builder results", "4.10"),
  'C11': ("Theorems in Purr/Props/C11.lean, for EVERY adjacency list: validate g = none iff WellFormed g (independent definition in Purr/Spec/WellFormed.lean: targets exist, no self bond, no pair bonded twice, "
          "exactly one counterpart of compatible kind); walk reports success only on well-formed lists and on an ill-formed list returns an error having emitted NO event (never hands the follower an unbalanced molecule); "
          "the returned error identifies a bond that really has that defect (ErrorReal, one clause per variant); conversely a well-formed list is never rejected with an error (traversal invariant: every stack entry is a real half-bond). "
